@@ -33,8 +33,8 @@ def plan(tier, seed):
                 pts = [2, 3]
             for shape, rep in shapes:
                 for k in ks:
-                    if nary and k >= 3 and len(shape) == 1 and shape[0] > 2:
-                        shape_ = (2,)
+                    if nary and k >= 3 and (shape[0] > 2 or len(shape) > 1):
+                        shape_ = (2,)       # 3 inputs: 2 cells (the sorting commands fork (k!)^cells ways)
                     else:
                         shape_ = shape
                     if nary and k >= 4:
@@ -56,6 +56,15 @@ def plan(tier, seed):
                                     if tier != 'quick':
                                         jobs.append(dict(cfg, reps='dm', kinds='fi'))
                                         jobs.append(dict(cfg, reps='md', kinds='if'))
+    # ---- the same claim under a floating-point error model: every array operation may be off by up to 2^-40
+    for sp in fuzzy_commands():
+        nary = any(p.kind == 'arrlist' for p in sp.params)
+        for var in D.default_variants(sp, 'quick'):
+            if var.get('omit') and tier == 'quick':
+                continue
+            for k in ([2] if nary else [1]) if tier == 'quick' else ([1, 2, 3] if nary else [1]):
+                jobs.append(dict(var, cmd=sp.name, shape=[1] if (nary and k > 2) or sp.name in ('CvtToFuzzyCurveZScore',) else [2], k=k, reps='m', pts=2 if tier == 'quick' else 3,
+                                 sel=1, rounding=True, max_paths=3000))
     # de-duplicate
     seen, out = set(), []
     import json
@@ -75,7 +84,7 @@ def scenario(ctx, cfg):
     if r.outcome == 'ok':
         obs.append(D.fact_ob('result is an array', ('array_result', 0), group='type'))
         for i, (v, m) in enumerate(zip(r.pd, r.pm)):
-            obs.append(D.term_ob('cell %d: missing or -1 <= value <= 1' % i, z3.Or(m, z3.And(v >= -1, v <= 1)), group='range'))
+            obs.append(D.term_ob('cell %d: missing or -1 <= value <= 1' % i, z3.Or(m, z3.And(v >= -1, v <= 1)), group='range', exact=True))
     return obs
 
 
@@ -97,7 +106,8 @@ def describe(tier):
             'quick': 'arrays of 2 cells (all mask placements symbolic), 1-3 inputs, 2 control points/categories, every string/boolean option, optional numbers given or omitted; float64 and int64 inputs (all-int and mixed for 2 inputs), masked arrays mixed with plain ndarrays / nomask arrays for 2 inputs',
             'thorough': 'arrays of <=3 cells and shape (2,2), masked / nomask / plain-ndarray inputs, 1-4 inputs (4 inputs: 1 cell), 2-3 control points',
         },
-        'outside': ['IEEE-754 rounding, overflow, NaN/inf (floats are reals)', 'arrays larger than the bound', 'hard masks',
+        'outside': ['IEEE-754 overflow, NaN/inf; rounding is covered only by the jobs marked rounding=true: there every array operation carries an unconstrained error of up to 2^-40 '
+                    '(an over-approximation for values below 2^12; statistics - mean, std - are exact), a counterexample under that model is reported only when re-drawn concrete doubles exhibit it on the real code', 'arrays larger than the bound', 'hard masks',
                     'paths that divide by zero outside a masked division (counted as paths_outside_real_model)'],
         'assumptions': D.STUBS + ['inputs and ALL parameters are unconstrained reals: no fuzzy-range precondition is assumed for this property'],
     }
